@@ -107,15 +107,30 @@ def install():
     I.cell_op = cell_op
 
 
+_MD5_CACHE = {}
+
+
+def _md5_terms(f):
+    k = f.get_id()
+    hit = _MD5_CACHE.get(k)
+    if hit is None:
+        hit = (f, [e for e in smt.subterms([f]) if z3.is_app(e) and e.decl().name() == "md5_hex"])
+        _MD5_CACHE[k] = hit
+    return hit[1]
+
+
 def buffer_axioms(formulas):
     """[E-MD5] no collisions: equal digests come from equal blobs."""
     ax = []
     hs = []
     seen = set()
-    for e in smt.subterms(list(formulas)):
-        if z3.is_app(e) and e.decl().name() == "md5_hex" and e.get_id() not in seen:
-            seen.add(e.get_id())
-            hs.append(e)
+    for f in formulas:
+        if not z3.is_expr(f):
+            continue
+        for e in _md5_terms(f):
+            if e.get_id() not in seen:
+                seen.add(e.get_id())
+                hs.append(e)
     for i in range(len(hs)):
         for j in range(i + 1, len(hs)):
             ax.append((hs[i] == hs[j]) == (hs[i].children()[0] == hs[j].children()[0]))
